@@ -423,7 +423,11 @@ ExtVals == [
   use_srtp_selection |-> << << << 0, 1 >>, <<>> >>, << << 0, 7 >>, Fill(122, 4) >> >>,
   alpn_offer |-> << << << << << 104, 50 >> >> >> >>, << << << << 104, 50 >> >>, << S(<< "w", "e", "b", "r", "t", "c" >>) >>, << FillNZ(123, 255) >> >> >> >>,
   alpn_selection |-> << << << << << 104, 50 >> >> >> >>, << << << FillNZ(123, 255) >> >> >> >>,
-  server_name_offer |-> << << << << << 0 >>, S(<< "a" >>) >> >> >>, << << << << 0 >>, S(<< "s", "e", "r", "v", "e", "r", ".", "l", "a", "b" >>) >> >> >> >>,
+  \* third value: an entry of a name type other than host_name whose opaque body is shaped like a host_name entry (RFC 6066:
+  \* unknown name types are skipped by their declared length) before a host_name entry.  (A list without any host_name
+  \* entry is refused by the library; that is its right.)
+  server_name_offer |-> << << << << << 0 >>, S(<< "a" >>) >> >> >>, << << << << 0 >>, S(<< "s", "e", "r", "v", "e", "r", ".", "l", "a", "b" >>) >> >> >>,
+                           << << << << 7 >>, << 0, 0, 4, 101, 118, 105, 108 >> >>, << << 0 >>, S(<< "a" >>) >> >> >> >>,
   server_name_ack |-> << <<>> >>,
   extended_master_secret |-> << <<>> >>,
   rrc |-> << <<>> >>,
